@@ -8,17 +8,17 @@ pub fn eval_size_fees(tx: &[u8], pparams: &PParams, extra_fees: Option<u64>) -> 
         + extra_fees.unwrap_or(DEFAULT_EXTRA_FEES)
 }
 
-pub fn slot_to_time(slot: i128, cursor: &ChainPoint) -> i128 {
-    let current_time = cursor.timestamp as i128;
-    let time_diff = slot - cursor.slot as i128;
-    current_time + (time_diff * 1000)
+pub fn slot_to_time(slot: i128, cursor: &ChainPoint) -> Option<i128> {
+    let current_time = i128::try_from(cursor.timestamp).ok()?;
+    let time_diff = slot.checked_sub(cursor.slot as i128)?;
+    current_time.checked_add(time_diff.checked_mul(1000)?)
 }
 
-pub fn time_to_slot(time: i128, cursor: &ChainPoint) -> i128 {
+pub fn time_to_slot(time: i128, cursor: &ChainPoint) -> Option<i128> {
     let current_slot = cursor.slot as i128;
-    let current_time = cursor.timestamp as i128;
-    let time_diff = time - current_time;
-    current_slot + (time_diff / 1000)
+    let current_time = i128::try_from(cursor.timestamp).ok()?;
+    let time_diff = time.checked_sub(current_time)?;
+    current_slot.checked_add(time_diff / 1000)
 }
 
 // Compute min utxo lovelace according to spec
